@@ -331,7 +331,7 @@ func (h *harness) report(o *outcome) {
 		sh = h.shrink(o)
 	}
 	h.run.Violate(sh.kind, sh.sess.String()+": "+sh.what, "", sh.kind == "correspondence", replayDoc{Session: sh.sess, Observed: sh.obs, Inputs: sh.line, Reply: sh.reply, Oracle: sh.oracle})
-	if h.failures >= 6 || atomic.LoadInt64(&timeoutSpent) > int64(timeoutBudget) {
+	if h.failures >= 3 || atomic.LoadInt64(&timeoutSpent) > int64(timeoutBudget) {
 		h.stop = true
 	}
 }
